@@ -186,6 +186,9 @@ V("O10.3", ["C10", "C06"], "c10_fused", expect_verified=5,
 K("O10.1", ["C10"], "compiler", "c10_add_constant", level="bounded", bound="constant pool of 0..=2 integer entries, symbolic new integer constant", functions=["Compiler::add_constant"],
   desc="returned slot holds the same type and content; earlier slots unchanged; index in range")
 
+K("O10.1f", ["C10"], "compiler", "c10_add_constant_float", level="bounded", bound="pool of one float constant; all pairs of non-NaN f64 bit patterns", functions=["Compiler::add_constant"],
+  desc="a float literal lands in a slot whose value is IEEE-equal to it; the existing slot is unchanged (added after seeded change C10-3 was missed)")
+
 # ---------------------------------------------------------------------------------------------
 # C11 structured control flow
 # ---------------------------------------------------------------------------------------------
